@@ -239,3 +239,31 @@ Definition sync (linear : bool) (den : positive) (tbin delta : Z) (tsa tsb : lis
   end.
 
 Definition drift_ppm (r : sync_result) : Q := sr_slope r * 1000000.
+
+(* ---- parabolic_max (1-D input), src/ibldsp/utils.py:parabolic_max ----------------
+   imax = np.argmax(x) (first maximum); v010 = x[clip(imax + [-1,0,1], 0, ns-1)];
+   poly = 0.5*[[1,-2,1],[-1,0,1],[0,2,0]] @ v010;
+   ipeak = -poly[1] / (poly[0] + (poly[0] == 0)) / 2; maxi = poly[2] + ipeak*poly[1] + ipeak**2*poly[0];
+   at either edge: (imax, x[imax]).  Returns (ipeak + imax, maxi). *)
+Fixpoint argmax_from (best : Z) (bv : Q) (l : list Q) (i : Z) : Z :=
+  match l with
+  | [] => best
+  | v :: r => if qltb bv v then argmax_from i v r (i + 1)%Z else argmax_from best bv r (i + 1)%Z
+  end.
+Definition argmax_first (x : list Q) : Z :=
+  match x with [] => 0%Z | v :: r => argmax_from 0%Z v r 1%Z end.
+
+Definition peak3 (v0 v1 v2 : Q) : Q * Q :=
+  let p0 := (v0 - 2 * v1 + v2) / 2 in
+  let p1 := (v2 - v0) / 2 in
+  let ip := - p1 / (p0 + (if Qeq_bool p0 0 then 1 else 0)) / 2 in
+  (ip, v1 + ip * p1 + ip * ip * p0).
+
+Definition parabolic_max (x : list Q) : Q * Q :=
+  let ns := Z.of_nat (length x) in
+  let imax := argmax_first x in
+  let at_ (k : Z) := nth (Z.to_nat (Z.max 0 (Z.min (ns - 1) k))) x 0 in
+  if ((imax =? 0) || (imax =? ns - 1))%Z then (inject_Z imax, at_ imax)
+  else let '(ip, mx) := peak3 (at_ (imax - 1)%Z) (at_ imax) (at_ (imax + 1)%Z) in
+       (ip + inject_Z imax, mx).
+
